@@ -144,6 +144,26 @@ fn long_runs(ctx: &Ctx) {
     if (e as f64) > 0.001 * (t as f64) {
         ctx.violation("cpc.size.max_serialized_bytes", &format!("{e} of {t} measurements on hashed streams exceed max_serialized_bytes(lg_k) (documented: 0.1%); worst {}", worst.lock().unwrap().1), json!({"kind":"stream","family":"cpc"}));
     }
+    // Frequent Items: every legal map size incl. those below the 8-slot minimum table
+    for size in [1usize, 2, 4, 8, 16, 64, 1024] {
+        for (name, items) in ss.iter().take(3) {
+            let mut s = datasketches::frequencies::FrequentItemsSketch::<i64>::new(size);
+            let nmax = items.len().min(1 << 16);
+            for (i, &x) in items.iter().take(nmax).enumerate() {
+                s.update(x as i64);
+                let m = (i + 1) as u64;
+                if m.is_power_of_two() || m as usize == nmax {
+                    measured.fetch_add(1, Ordering::Relaxed);
+                    let cap = s.maximum_map_capacity();
+                    let len = s.serialize().len();
+                    if s.num_active_items() > cap || len > 32 + 16 * cap.max(1) {
+                        ctx.violation("fi.size.stream", &format!("{name}: FrequentItemsSketch::new({size}) after {m} items tracks {} items in a {len}-byte image, maximum_map_capacity is {cap}", s.num_active_items()), json!({"kind":"stream","family":"fi","size":size,"stream":name,"n":m}));
+                        break;
+                    }
+                }
+            }
+        }
+    }
     let m = measured.load(Ordering::Relaxed) + t;
     ctx.count("long-run size measurements", m);
     ctx.add_states(m);
